@@ -272,7 +272,7 @@ func (c *caseRun) run() {
 		forced := script != nil && script.restartBefore(h)
 		if (script == nil && s.Intn(16) < pRestart) || forced {
 			var change func(*config.Blockchain)
-			if script == nil && s.Chance(1, 3) {
+			if script == nil && os.Getenv("LEDGER_NOFLIP") == "" && s.Chance(1, 3) {
 				// Verification options are not persisted and may change across a restart. (RemoveUntraceableBlocks
 				// may not: it selects the MPT node format, a reopened database then fails with "key not found";
 				// the property quantifies over configurations, not over configuration changes, so that is not
@@ -309,7 +309,7 @@ func (c *caseRun) run() {
 		if script == nil && s.Intn(16) < pJunk {
 			c.junk(txs)
 		}
-		if c.gcSleep && h%11 == 0 && h <= 44 {
+		if c.gcSleep && h%11 == 0 && (h <= 44 || os.Getenv("LEDGER_NOCAP") != "") {
 			time.Sleep(1100 * time.Millisecond) // let B's persist timer fire: that is the only trigger of the GC
 			o.Count("B.gc-timer-waits")
 		}
@@ -582,13 +582,51 @@ func (c *caseRun) diverged(h uint32, name, va, vb string) {
 		}
 		key += ":" + strings.Join(ks, "+")
 	}
+	if strings.HasPrefix(name, "storage[") {
+		var id int32
+		fmt.Sscanf(name, "storage[%d]", &id)
+		vb += " first-difference: " + storageDiff(c, id)
+	}
 	c.o.Count("diverged")
 	c.o.Fail(key, c.k, "replicas differ at height %d in %s: A=%s B=%s [%s] history=%s", h, name, clip(va), clip(vb), c.desc, c.history())
 }
 
+// storageDiff names the first key on which the two replicas' contract storage differs.
+func storageDiff(c *caseRun, id int32) string {
+	dump := func(n *chainx.Node) map[string]string {
+		m := map[string]string{}
+		n.BC.SeekStorage(id, nil, func(k, v []byte) bool {
+			m[hx.Hex(k)] = hx.Hex(v)
+			return true
+		})
+		return m
+	}
+	ma, mb := dump(c.a), dump(c.b)
+	keys := map[string]bool{}
+	for k := range ma {
+		keys[k] = true
+	}
+	for k := range mb {
+		keys[k] = true
+	}
+	ks := make([]string, 0, len(keys))
+	for k := range keys {
+		ks = append(ks, k)
+	}
+	sort.Strings(ks)
+	for _, k := range ks {
+		va, oka := ma[k]
+		vb, okb := mb[k]
+		if !oka || !okb || va != vb {
+			return fmt.Sprintf("key=%s A=%s(%v) B=%s(%v)", k, va, oka, vb, okb)
+		}
+	}
+	return "none"
+}
+
 func clip(s string) string {
-	if len(s) > 300 {
-		return s[:300] + "..."
+	if len(s) > 600 {
+		return s[:600] + "..."
 	}
 	return s
 }
